@@ -843,7 +843,7 @@ static int run_once(const uint8_t *tp_, size_t len, struct vp_report *rep, unsig
     end_op(c, "plumbing");
 
     int nops = 0;
-    while (!tp_done(&c->t) && nops < MAXOPS && !c->ret) {
+    while (!tp_done(&c->t) && nops < MAXOPS && !c->ret && pfx_log_room(&c->pfx)) {
         nops++;
         uint8_t op = tp_u8(&c->t) % 16;
         switch (op) {
